@@ -45,5 +45,11 @@ func init() {
 			New: "\t\t\tlogging.CPrint(logging.DEBUG, \"next addresses\", logging.LogFormat{\"n\": numAddresses})\n\t\t\tmanagedAddresses, err = addrManager.nextAddresses(dbTransaction, internal, numAddresses, kmc.params)\n"},
 		{Name: "wrapped error returned from putRemark", Kill: false, File: fKsDB,
 			Old: "\treturn b.Put(remarkName, remark)\n", New: "\tif err := b.Put(remarkName, remark); err != nil {\n\t\treturn fmt.Errorf(\"failed to store remark: %v\", err)\n\t}\n\treturn nil\n"},
+		{Name: "putCryptoKeys checks one shared err at the end (seed C12-r2a)", Kill: true, Rule: "C12-D", File: fKsDB,
+			Old: "\tif pubKeyEncrypted != nil {\n\t\terr := b.Put(cryptoPubKeyName, pubKeyEncrypted)\n\t\tif err != nil {\n\t\t\treturn fmt.Errorf(\"failed to store encrypted crypto public key: %v\", err)\n\t\t}\n\t}\n\n\tif privKeyEncrypted != nil {\n\t\terr := b.Put(cryptoPrivKeyName, privKeyEncrypted)\n\t\tif err != nil {\n\t\t\treturn fmt.Errorf(\"failed to store encrypted crypto private key: %v\", err)\n\t\t}\n\t}\n\n\treturn nil\n}",
+			New: "\tvar err error\n\tif pubKeyEncrypted != nil {\n\t\terr = b.Put(cryptoPubKeyName, pubKeyEncrypted)\n\t}\n\n\tif privKeyEncrypted != nil {\n\t\terr = b.Put(cryptoPrivKeyName, privKeyEncrypted)\n\t}\n\n\tif err != nil {\n\t\treturn fmt.Errorf(\"failed to store encrypted crypto keys: %v\", err)\n\t}\n\treturn nil\n}"},
+		{Name: "putCryptoKeys checks each error into a shared variable but returns at once", Kill: false, File: fKsDB,
+			Old: "\tif pubKeyEncrypted != nil {\n\t\terr := b.Put(cryptoPubKeyName, pubKeyEncrypted)\n\t\tif err != nil {\n\t\t\treturn fmt.Errorf(\"failed to store encrypted crypto public key: %v\", err)\n\t\t}\n\t}\n",
+			New: "\tvar err error\n\tif pubKeyEncrypted != nil {\n\t\terr = b.Put(cryptoPubKeyName, pubKeyEncrypted)\n\t\tif err != nil {\n\t\t\treturn fmt.Errorf(\"failed to store encrypted crypto public key: %v\", err)\n\t\t}\n\t}\n"},
 	}
 }
